@@ -175,6 +175,7 @@ def run(F, res, tier):
     # the value names offered at an expression position are ModuleScope.values: a type import must not bind a constructor there
     from rules import c05 as _c05
     _c05.namespaces(F, res, rule7="X11", rule8="X11")
+    keyword_class_is_complete(F, res)
     _c05.every_visited_expression_has_its_scope_recorded(F, res, rule="X15")   # completion asks for the scope of exactly the expression under the cursor
     _c05.lowering_visits_every_child(F, res, rule="X13")   # names inside a construct that is never lowered are offered nothing
     from rules import c09 as _c09x
@@ -460,3 +461,23 @@ def accessors_of_opaque_types_stay_private(F, res, rule="X12"):
     res.ob(rule, "complete_dot/fields-of-opaque-types", "whether `value.` offers the fields of a type depends on the type's `opaque` modifier (the accessors "
            "of an opaque type are private to its module)", n > 0 and not bad, where=f.loc(),
            how="Field items built: %d; not depending on AdtData.opaque: %s" % (n, bad))
+
+
+def keyword_class_is_complete(F, res, rule="X16"):
+    """X16: the range a completion replaces is the token under the cursor when that token is an identifier *or a keyword* (typing
+    `user` passes through `use`). Which kinds are keywords is SyntaxKind::is_keyword, a range test between two markers; tabulated over
+    every kind (engine T) it must say yes for exactly the kinds the lexer produces for a reserved word (the `*_KW` variants): an
+    exclusive upper bound drops the last one, and accepting `user` at `use|` then inserts `useuser`."""
+    from lib import teval
+    SK = "syntax::kind::SyntaxKind"
+    pure = teval.Pure(F)
+    kinds = F.variants(SK)
+    try:
+        got = {k for k in kinds if pure.call(SK + "::is_keyword", [("e", SK, k)]) == 1}
+    except Exception as e:  # noqa
+        res.anchor_missing(rule, "SyntaxKind::is_keyword could not be tabulated: %r" % (e,))
+        return
+    want = {k for k in kinds if k.endswith("_KW")}
+    res.floor("keyword kinds", len(want), 12)
+    res.ob(rule, "keywords/class", "SyntaxKind::is_keyword holds for exactly the *_KW kinds", got == want, where="crates/syntax/src/kind.rs",
+           how="%d kinds" % len(got) if got == want else "missing %s, extra %s" % (sorted(want - got), sorted(got - want)))
